@@ -734,3 +734,106 @@ func timeRangePrintRule(o *Ob) {
 	}
 	o.MinSites(4)
 }
+
+// configMatchersRoundTripRule: the printed configuration carries every route / inhibition matcher and every legacy
+// regular expression in a form the loader reads back: Matchers is printed matcher by matcher with Matcher.String and
+// read line by line with the compat parser, every parsed matcher kept and every error returned; a legacy Regexp is
+// printed as the text it was read from and read by compiling that text anchored.
+func configMatchersRoundTripRule(o *Ob) {
+	e := o.E
+	for _, enc := range []string{"YAML", "JSON"} {
+		mf := o.Fn("(am/config/common.Matchers).Marshal" + enc)
+		var st *ssa.Store
+		for _, in := range AllInstrs(mf) {
+			if s, ok := in.(*ssa.Store); ok && e.X(mf, s.Val) == "(*am/pkg/labels.Matcher).String(recv[i])" {
+				st = s
+			}
+		}
+		if o.Check(st != nil, "print|"+enc, "Matchers.Marshal"+enc+" must print every matcher with Matcher.String", fnFirst(mf)) {
+			o.Site(st, "Matchers.Marshal"+enc)
+			o.Check(strings.HasSuffix(e.X(mf, st.Addr), "[i]"), "print-slot|"+enc, "each matcher must be printed into its own slot, written to "+e.X(mf, st.Addr), st)
+			if l := e.LoopOf(st); o.Check(l != nil, "print-loop|"+enc, "matchers must be printed in a loop", st) {
+				coll, _ := e.RangeOver(l)
+				o.Check(coll == "recv" && len(e.EarlyExits(l)) == 0 && !loopBackWithout(o, l, IsInstr(st), nil), "print-all|"+enc, "a matcher can be left out of the printed configuration", st)
+			}
+			dst := strings.TrimSuffix(e.X(mf, st.Addr), "[i]")
+			n := 0
+			for _, ret := range (&Walk{Fn: mf}).FromEntry().Returns() {
+				v := e.X(mf, ret.Results[0])
+				if v == `slice(&slicelit:[2]byte)` || strings.Contains(v, `"[]"`) || strings.HasPrefix(v, "conv:[]byte(") {
+					continue // the empty list of the JSON form
+				}
+				n++
+				o.Check(v == dst || strings.Contains(v, dst), "print-result|"+enc, "what is returned must be the printed matchers, is "+clip(v), ret)
+			}
+			o.Check(n >= 1, "print-return|"+enc, "Matchers.Marshal"+enc+" never returns the printed matchers", st)
+		}
+		uf := o.Fn("(*am/config/common.Matchers).Unmarshal" + enc)
+		pc := o.One(e.Calls(uf, "am/matcher/compat.Matchers"), "parse|"+enc, "Matchers.Unmarshal"+enc+" must parse with the compat parser", uf)
+		o.Site(pc, "Matchers.Unmarshal"+enc)
+		px := e.X(uf, pc.(*ssa.Call))
+		o.Check(e.Arg(pc, 0) == "var:lines[i]", "parse-arg|"+enc, "every line must be parsed, parses "+e.Arg(pc, 0), pc)
+		pOK := L("("+px+"#1 == nil)", true)
+		errAfter(o, uf, pc, pOK.Neg(), px+"#1", "parse-error|"+enc, "a line that does not parse must fail the load with the parser's error")
+		var keep ssa.Instruction
+		for _, in := range AllInstrs(uf) {
+			if s, ok := in.(*ssa.Store); ok && e.X(uf, s.Addr) == "recv" {
+				_, parts := e.AppendParts(s.Val)
+				for _, p := range parts {
+					if p.Spread && e.X(uf, p.V) == px+"#0" {
+						keep = s
+					}
+				}
+			}
+		}
+		if o.Check(keep != nil, "keep|"+enc, "the parsed matchers are not added to the result", pc) {
+			if l := e.LoopOf(pc); o.Check(l != nil, "keep-loop|"+enc, "lines must be parsed in a loop", pc) {
+				coll, _ := e.RangeOver(l)
+				o.Check(coll == "var:lines" && !loopBackWithout(o, l, IsInstr(keep), e.CutContradicting(pOK)), "keep-all|"+enc, "a line's matchers can be dropped", keep)
+			}
+		}
+	}
+	for _, enc := range []string{"YAML", "JSON"} {
+		uf := o.Fn("(*am/config/common.Regexp).Unmarshal" + enc)
+		cc := o.One(e.Calls(uf, "regexp.Compile"), "re-compile|"+enc, "a legacy regexp must be compiled when read", uf)
+		o.Site(cc, "Regexp.Unmarshal"+enc)
+		o.Check(regexpMatch(`\(\("\^\(\?:" \+ var:s\) \+ "\)\$"\)`, e.Arg(cc, 0)), "re-anchored|"+enc, "a legacy regexp must be compiled fully anchored, compiles "+e.Arg(cc, 0), cc)
+		cx := e.X(uf, cc.(*ssa.Call))
+		errAfter(o, uf, cc, L("("+cx+"#1 == nil)", false), cx+"#1", "re-error|"+enc, "a regexp that does not compile must fail the load with the compiler's error")
+		n := 0
+		for _, s := range e.StoresToField(uf, "am/config/common.Regexp", "Original") {
+			n++
+			o.Check(e.X(uf, s.Val) == "var:s", "re-original|"+enc, "the text read must be kept for printing, keeps "+e.X(uf, s.Val), s)
+		}
+		o.Check(n >= 1, "re-original-site|"+enc, "the text of a legacy regexp is no longer kept: the printed configuration would lose it", cc)
+		mf := o.Fn("(am/config/common.Regexp).Marshal" + enc)
+		set := LRe(`\(.*\.Original == ""\)`, true)
+		okv := false
+		for _, ret := range (&Walk{Fn: mf, Cut: e.CutContradicting(set.Neg())}).FromEntry().Returns() {
+			v := e.X(mf, ret.Results[0])
+			okv = true
+			o.Check(strings.Contains(v, ".Original"), "re-print|"+enc, "a legacy regexp must be printed as the text it was read from, prints "+clip(v), ret)
+		}
+		o.Check(okv, "re-print-exit|"+enc, "Regexp.Marshal"+enc+" has no exit for a regexp that was read from text", fnFirst(mf))
+	}
+}
+
+func init() {
+	desc := "Matchers printed one by one with Matcher.String and read back line by line with the compat parser (every matcher kept, every error returned); legacy Regexp printed as its source text and read by compiling it anchored"
+	reg("C17", "C17.10", "T8,T6", "the printed configuration loads back to the same matchers: "+desc, func(o *Ob) { configMatchersRoundTripRule(o); o.MinSites(6) })
+	reg("C07", "C07.11", "T8,T6", "route matchers are the configured ones: "+desc, func(o *Ob) { configMatchersRoundTripRule(o); o.MinSites(6) })
+}
+
+// errAfter: on every path from `start` on which `failed` holds, fn returns an error that is (or wraps) `errv`.
+func errAfter(o *Ob, fn *ssa.Function, start ssa.Instruction, failed LitM, errv, key, what string) {
+	e := o.E
+	r := (&Walk{Fn: fn, Cut: e.CutContradicting(failed)}).After(start)
+	rets := r.Returns()
+	o.Check(len(rets) >= 1, key+"|exit", what+": no exit on failure", start)
+	last := fn.Signature.Results().Len() - 1
+	for _, ret := range rets {
+		for _, v := range e.ValStrs(fn, e.RetVals(r, ret, last)) {
+			o.Check(v == errv || strings.Contains(v, errv) && v != "nil", key, what+", returns "+clip(v), ret)
+		}
+	}
+}
